@@ -18,6 +18,8 @@ import (
 	"fmt"
 	"os"
 	"reflect"
+	"runtime"
+	"strconv"
 	"sort"
 	"strings"
 	"sync"
@@ -302,6 +304,7 @@ type caseIn struct {
 	TAddr   int        `json:"taddr"`
 	Threads []thrIn    `json:"threads"`
 	Sched   []int      `json:"sched"`
+	// "shared" = all callers use ONE service instance over one memory store (one node serving several clients)
 	World   string     `json:"world"` // "" = one memory store; "cluster" = every caller on its own node: hybrid storage with a private local cache, ONE shared cache, stock DefaultConfig routing
 }
 type thrOut struct {
@@ -312,6 +315,7 @@ type thrOut struct {
 	First   int   `json:"first"` // index in the executed schedule of this caller's first storage action (-1: none)
 	Done    int   `json:"done"`  // index of the entry after which it had returned (-1: returned before any action)
 	Faulted bool  `json:"faulted"`
+	RetListen int64 `json:"retlisten"` // ListenClientID of the mapping object the call returned (0: none)
 }
 type viol struct {
 	Kind string `json:"kind"`
@@ -332,6 +336,7 @@ type caseOut struct {
 	ClaimSet  bool     `json:"claimset"`
 	Ticked    bool     `json:"ticked"`
 	Ambiguous bool     `json:"ambiguous"`
+	Skipped   int      `json:"skipped"` // schedule entries naming a caller that was blocked outside the store (not executed, not in sched)
 	Viol      []viol   `json:"viol"`
 }
 
@@ -368,6 +373,55 @@ type stack struct {
 	pms    services.PortMappingService
 	svc    *services.ConnectionCodeService
 }
+
+// goroutine id of the caller (shared-service worlds: several callers use ONE service instance over ONE store, so the
+// store double has to tell them apart by the goroutine the call arrives on)
+func gid() uint64 {
+	var b [64]byte
+	n := runtime.Stack(b[:], false)
+	f := strings.Fields(string(b[:n]))
+	if len(f) < 2 {
+		return 0
+	}
+	id, _ := strconv.ParseUint(f[1], 10, 64)
+	return id
+}
+
+// routerStore hands every storage call to the gated double of the caller whose goroutine makes it; calls from any
+// other goroutine go straight to the store
+type routerStore struct {
+	storage.Storage
+	base fullStore
+	mu   sync.Mutex
+	by   map[uint64]*gatedStore
+}
+
+func (r *routerStore) register(st *gatedStore) {
+	r.mu.Lock()
+	r.by[gid()] = st
+	r.mu.Unlock()
+}
+func (r *routerStore) pick() fullStore {
+	r.mu.Lock()
+	st, ok := r.by[gid()]
+	r.mu.Unlock()
+	if ok {
+		return st
+	}
+	return r.base
+}
+func (r *routerStore) Get(key string) (any, error)                        { return r.pick().Get(key) }
+func (r *routerStore) Set(key string, v any, ttl time.Duration) error      { return r.pick().Set(key, v, ttl) }
+func (r *routerStore) Delete(key string) error                            { return r.pick().Delete(key) }
+func (r *routerStore) Exists(key string) (bool, error)                    { return r.pick().Exists(key) }
+func (r *routerStore) SetNX(key string, v any, ttl time.Duration) (bool, error) { return r.pick().SetNX(key, v, ttl) }
+func (r *routerStore) CompareAndSwap(key string, o, n any, ttl time.Duration) (bool, error) {
+	return r.pick().CompareAndSwap(key, o, n, ttl)
+}
+func (r *routerStore) SetList(key string, v []any, ttl time.Duration) error { return r.pick().SetList(key, v, ttl) }
+func (r *routerStore) GetList(key string) ([]any, error)                   { return r.pick().GetList(key) }
+func (r *routerStore) AppendToList(key string, v any) error                { return r.pick().AppendToList(key, v) }
+func (r *routerStore) RemoveFromList(key string, v any) error              { return r.pick().RemoveFromList(key, v) }
 
 // view = what an observer of the cluster sees: a fresh node (empty local cache) for point reads, the shared cache for scans
 type view struct {
@@ -495,11 +549,66 @@ func runSched(c caseIn) *caseOut {
 	done := make([]chan struct{}, n)
 	results := make([]error, n)
 	mapIDs := make([]string, n)
+	retListen := make([]int64, n)
 	var mu sync.Mutex
 	owner := map[string]int{}
-	for i, t := range c.Threads {
+	shared := c.World == "shared"
+	var router *routerStore
+	var sharedStack *stack
+	if shared {
+		router = &routerStore{Storage: base, base: base, by: map[uint64]*gatedStore{}}
+		sharedStack = newStack(ctx, router, base, c.QMax)
+	}
+	parked := make([]bool, n)
+	finished := make([]bool, n)
+	waiting := make([]bool, n) // shared worlds: the caller is blocked somewhere outside the store (e.g. waiting for another caller)
+	stuck := false
+	settleT := 20 * time.Second
+	if shared {
+		settleT = 150 * time.Millisecond
+	}
+	settle := func(i int) {
+		for !parked[i] && !finished[i] {
+			select {
+			case j := <-g.arrive:
+				parked[j], waiting[j] = true, false
+			case <-done[i]:
+				finished[i], waiting[i] = true, false
+			case <-time.After(settleT):
+				if shared {
+					waiting[i] = true
+					return
+				}
+				stuck = true
+				finished[i] = true
+			}
+		}
+	}
+	poll := func() { // pick up callers that were blocked and have moved on meanwhile
+		for {
+			select {
+			case j := <-g.arrive:
+				parked[j], waiting[j] = true, false
+				continue
+			default:
+			}
+			break
+		}
+		for j := 0; j < n; j++ {
+			if waiting[j] {
+				select {
+				case <-done[j]:
+					finished[j], waiting[j] = true, false
+				default:
+				}
+			}
+		}
+	}
+	for i := range c.Threads {
 		g.resume[i] = make(chan struct{})
 		done[i] = make(chan struct{})
+	}
+	for i, t := range c.Threads {
 		if t.Kind == "tick" {
 			continue
 		}
@@ -510,9 +619,17 @@ func runSched(c caseIn) *caseOut {
 		st := &gatedStore{Storage: nodeStore, raw: nodeStore, idx: i, g: g, faultAt: t.Fault, mu: &mu, owner: owner,
 			listenKey: fmt.Sprintf("%s:%s", constants.KeyPrefixClientMappings, random.Int64ToString(t.Listen))}
 		stores[i] = st
-		sk := newStack(ctx, st, nodeStore, c.QMax)
+		var sk *stack
+		if shared {
+			sk = sharedStack
+		} else {
+			sk = newStack(ctx, st, nodeStore, c.QMax)
+		}
 		go func(i int, t thrIn, sk *stack) {
 			defer close(done[i])
+			if shared {
+				router.register(stores[i])
+			}
 			code := codeStr
 			if t.NoCode {
 				code = ""
@@ -526,26 +643,14 @@ func runSched(c caseIn) *caseOut {
 				results[i] = err
 				if err == nil && m != nil {
 					mapIDs[i] = m.ID
+					retListen[i] = m.ListenClientID
 				}
 			} else {
 				results[i] = sk.svc.RevokeConnectionCode(code, fmt.Sprintf("verif-%d", i))
 			}
 		}(i, t, sk)
-	}
-	parked := make([]bool, n)
-	finished := make([]bool, n)
-	stuck := false
-	settle := func(i int) {
-		for !parked[i] && !finished[i] {
-			select {
-			case j := <-g.arrive:
-				parked[j] = true
-			case <-done[i]:
-				finished[i] = true
-			case <-time.After(20 * time.Second):
-				stuck = true
-				finished[i] = true
-			}
+		if shared {
+			settle(i) // callers enter the one service instance in index order (deterministic)
 		}
 	}
 	first := make([]int, n)
@@ -553,15 +658,23 @@ func runSched(c caseIn) *caseOut {
 	positions := make([][]int, n)
 	for i := 0; i < n; i++ {
 		first[i], doneAt[i] = -1, -1
-		if i == tickIdx {
+		if i == tickIdx || shared {
 			continue
 		}
 		settle(i)
 	}
+	early := append([]bool(nil), finished...) // rejected on its parameters before any storage call
 	expiresAt := cc.ActivationExpiresAt
 	var preDur, postDur time.Duration
 	tTick := time.Time{}
 	stepOne := func(i int) {
+		if shared && i >= 0 && i < n && i != tickIdx {
+			poll()
+			if waiting[i] {
+				out.Skipped++
+				return
+			}
+		}
 		pos := len(out.Sched)
 		out.Sched = append(out.Sched, i)
 		if i == tickIdx {
@@ -592,9 +705,56 @@ func runSched(c caseIn) *caseOut {
 	for _, i := range c.Sched {
 		stepOne(i)
 	}
-	for i := 0; i < n; i++ {
-		for i != tickIdx && !finished[i] {
-			stepOne(i)
+	for { // completion: run every caller to the end, in index order; blocked callers are picked up when they move
+		progress := false
+		for i := 0; i < n; i++ {
+			for i != tickIdx && !finished[i] && !waiting[i] {
+				stepOne(i)
+				progress = true
+			}
+		}
+		left := false
+		for i := 0; i < n; i++ {
+			if i != tickIdx && !finished[i] {
+				left = true
+			}
+		}
+		if !left {
+			break
+		}
+		if !progress { // only blocked callers remain: wait for one of them to move
+			deadline := time.Now().Add(20 * time.Second)
+			for {
+				poll()
+				moved := false
+				for i := 0; i < n; i++ {
+					if i != tickIdx && !finished[i] && !waiting[i] {
+						moved = true
+					}
+				}
+				allDone := true
+				for i := 0; i < n; i++ {
+					if i != tickIdx && !finished[i] {
+						allDone = false
+					}
+				}
+				if moved || allDone {
+					break
+				}
+				if time.Now().After(deadline) {
+					stuck = true
+					for i := 0; i < n; i++ {
+						finished[i] = true
+					}
+					break
+				}
+				time.Sleep(200 * time.Microsecond)
+			}
+		}
+	}
+	for i := 0; i < n; i++ { // a caller that returned without ever touching the store returned "at the end"
+		if i != tickIdx && finished[i] && doneAt[i] < 0 && !early[i] {
+			doneAt[i] = len(out.Sched) - 1 // returned while blocked outside the store: "at the end"
 		}
 	}
 	if out.Ticked {
@@ -717,6 +877,7 @@ func runSched(c caseIn) *caseOut {
 		to.Faulted = stores[i].faulted
 		if t.Kind == "act" && results[i] == nil {
 			to.Map = ownerOf(mapIDs[i])
+			to.RetListen = retListen[i]
 		}
 		out.Threads = append(out.Threads, to)
 	}
@@ -754,6 +915,9 @@ func runSched(c caseIn) *caseOut {
 		}
 		to := out.Threads[i]
 		if to.Res == 0 {
+			if to.RetListen != t.Listen {
+				add("returned-mapping-not-callers", "caller %d (client %d): activation reported success but the mapping it was handed listens for client %d (made by caller %d)", i, t.Listen, to.RetListen, to.Map)
+			}
 			if to.Map != i || !hasMain[i] {
 				add("success-without-mapping", "caller %d: activation succeeded but the returned mapping is not in storage", i)
 			}
